@@ -23,6 +23,18 @@ func newSmap(t *types.Map) *smap { return &smap{kt: t.Key()} }
 
 func (m *smap) len() int { return m.n }
 
+func (m *smap) access(r *run, write bool) {
+	if r.tracing && m != nil {
+		if loc, ok := r.watchMap[m]; ok {
+			if write {
+				r.traceEvent("wr:" + loc)
+			} else {
+				r.traceEvent("rd:" + loc)
+			}
+		}
+	}
+}
+
 func (m *smap) find(r *run, key value) *mentry {
 	for _, e := range m.entries {
 		if e.deleted {
@@ -58,6 +70,7 @@ func (e *mentry) resolve(r *run, m *smap) bool {
 }
 
 func (m *smap) lookup(r *run, key value) (value, bool) {
+	m.access(r, false)
 	if e := m.find(r, key); e != nil {
 		if !e.resolve(r, m) {
 			return nil, false
@@ -68,6 +81,7 @@ func (m *smap) lookup(r *run, key value) (value, bool) {
 }
 
 func (m *smap) insert(r *run, key, val value) {
+	m.access(r, true)
 	if e := m.find(r, key); e != nil {
 		e.present = nil
 		e.val = copyVal(val)
@@ -78,6 +92,7 @@ func (m *smap) insert(r *run, key, val value) {
 }
 
 func (m *smap) delete(r *run, key value) {
+	m.access(r, true)
 	if e := m.find(r, key); e != nil {
 		if e.resolve(r, m) {
 			e.deleted = true
@@ -112,6 +127,7 @@ func newMapIter(r *run, m *smap) *mapIter {
 	if m == nil {
 		return it
 	}
+	m.access(r, false)
 	m.resolveAll(r)
 	for _, e := range m.entries {
 		if !e.deleted {
